@@ -183,3 +183,134 @@ Proof.
   splits; auto. destruct (run_functors_shape _ _ _ _ HS) as (_ & NR & _). intros dl now t. eapply rlog_nil_norun; eauto.
 Qed.
 
+
+(* ================================================================== doPendingFunctors as micro-steps *)
+(* one functor of the batch *)
+Definition run_one (st : state) (f : pfun) : result (state * list event) :=
+  match f with
+  | PAdd a => add_in_loop st a
+  | PCancel a s => st1 <- cancel_in_loop st a s ;; Ok (st1, [])
+  | PUser cs => cb_run st cs
+  end.
+Lemma run_functors_cons : forall st f r, run_functors st (f :: r) =
+  ('(st1, e1) <- run_one st f ;; '(st2, e2) <- run_functors st1 r ;; Ok (st2, e1 ++ e2)).
+Proof.
+  intros st [a|a s|cs] r; cbn [run_functors run_one]; auto.
+  destruct (cancel_in_loop st a s) as [st1| |]; cbn [bind]; auto.
+  destruct (run_functors st1 r) as [[st2 e2]| |]; cbn [bind app]; auto.
+Qed.
+
+(* the micro-step execution: after the swap, functor by functor; [between] gives, per functor, what the rest of
+   the world does before the next one starts (foreign micro-steps: new Timer, hand-offs, queued cancels, ...) *)
+Fixpoint mrun (st : state) (fs : list pfun) (between : list (list cbop)) : result (state * list event) :=
+  match fs with
+  | [] => Ok (st, [])
+  | f :: r => '(st1, e1) <- run_one st f ;; '(st2, e2) <- cb_run st1 (hd [] between) ;;
+              '(st3, e3) <- mrun st2 r (tl between) ;; Ok (st3, e1 ++ e2 ++ e3)
+  end.
+Fixpoint weave (fs : list pfun) (between : list (list cbop)) : list pfun :=
+  match fs with [] => [] | f :: r => f :: PUser (hd [] between) :: weave r (tl between) end.
+(* RunPending (atomic in the model) over the woven batch IS the micro-step execution: user functors are how the
+   model represents what happens between two functors *)
+Lemma mrun_weave : forall fs st between, mrun st fs between = run_functors st (weave fs between).
+Proof.
+  induction fs as [|f r IH]; intros st between; cbn [mrun weave]; auto.
+  rewrite run_functors_cons. destruct (run_one st f) as [[st1 e1]| |]; cbn [bind]; auto.
+  rewrite run_functors_cons. cbn [run_one]. destruct (cb_run st1 (hd [] between)) as [[st2 e2]| |]; cbn [bind]; auto.
+  rewrite IH. destruct (run_functors st2 (weave r (tl between))) as [[st3 e3]| |]; cbn [bind]; auto.
+Qed.
+
+(* ---- an enqueue that lands while a timer functor runs = the same enqueue right after it *)
+Definition enq (st : state) (p : list pfun) (i : list Z) : state := set_inflight (set_pending st p) i.
+Definition timer_functor (f : pfun) : Prop := match f with PUser _ => False | _ => True end.
+Definition enqueue_step (c : cbop) : Prop :=
+  match c with CFEnq _ | CFCancel _ _ | CQueue _ => True | _ => False end.
+
+Lemma insert_enq : forall st p i a, insert (enq st p i) a =
+  match insert st a with Ok (st', e) => Ok (enq st' p i, e) | Rejected => Rejected | Fault => Fault end.
+Proof.
+  intros st p i a. unfold insert, assert, deref. change (sizes_agree (enq st p i)) with (sizes_agree st).
+  change (heap (enq st p i)) with (heap st). change (timers (enq st p i)) with (timers st). change (active (enq st p i)) with (active st).
+  destruct (sizes_agree st); cbn [bind]; auto. destruct (hget a (heap st)) as [o|]; cbn [bind]; auto.
+  destruct (kinsert (o_exp o, a) (timers st)); auto. destruct (kinsert (a, o_seq o) (active st)); auto.
+Qed.
+Lemma settime_enq : forall st p i r, settime (enq st p i) r = enq (settime st r) p i.
+Proof. intros st p i r. unfold settime. destruct (r =? 0); [reflexivity|]. destruct (r <? 0); reflexivity. Qed.
+Lemma add_in_loop_enq : forall st p i a, add_in_loop (enq st p i) a =
+  match add_in_loop st a with Ok (st', e) => Ok (enq st' p i, e) | Rejected => Rejected | Fault => Fault end.
+Proof.
+  intros st p i a. unfold add_in_loop. rewrite insert_enq. destruct (insert st a) as [[st1 e]| |]; cbn [bind]; auto.
+  destruct e; auto. unfold deref. change (heap (enq st1 p i)) with (heap st1).
+  destruct (hget a (heap st1)) as [o|]; cbn [bind]; auto. unfold reset_timerfd.
+  change (how_much (enq st1 p i) (o_exp o)) with (how_much st1 (o_exp o)). rewrite settime_enq. reflexivity.
+Qed.
+Lemma cancel_enq : forall st p i a s, cancel_in_loop (enq st p i) a s =
+  match cancel_in_loop st a s with Ok st' => Ok (enq st' p i) | Rejected => Rejected | Fault => Fault end.
+Proof.
+  intros st p i a s. unfold cancel_in_loop, assert, deref. change (sizes_agree (enq st p i)) with (sizes_agree st).
+  change (heap (enq st p i)) with (heap st). change (timers (enq st p i)) with (timers st). change (active (enq st p i)) with (active st).
+  change (calling (enq st p i)) with (calling st).
+  destruct (sizes_agree st); cbn [bind]; auto. destruct (kmem (a, s) (active st)).
+  - destruct (hget a (heap st)) as [o|]; cbn [bind]; auto.
+    destruct (kerase (o_exp o, a) (timers st)); auto. destruct (kerase (a, s) (active st)); auto.
+  - destruct (calling st); reflexivity.
+Qed.
+(* a timer functor neither reads nor writes the queue / the in-flight set *)
+Lemma run_one_enq : forall st p i f, timer_functor f -> run_one (enq st p i) f =
+  match run_one st f with Ok (st', e) => Ok (enq st' p i, e) | Rejected => Rejected | Fault => Fault end.
+Proof.
+  intros st p i [a|a s|cs] TF; [| |contradiction]; cbn [run_one].
+  - apply add_in_loop_enq.
+  - rewrite cancel_enq. destruct (cancel_in_loop st a s); reflexivity.
+Qed.
+Lemma run_one_keeps_queue : forall st f st' e, timer_functor f -> run_one st f = Ok (st', e) ->
+  pending st' = pending st /\ inflight st' = inflight st.
+Proof.
+  intros st [a|a s|cs] st' e TF H; [| |contradiction]; cbn [run_one] in H.
+  - destruct (add_in_loop_shape _ _ _ _ H) as (_ & _ & _ & _ & _ & _ & Ep & _). split; auto.
+    unfold add_in_loop in H. destruct (insert st a) as [[st1 ee]| |] eqn:EI; cbn [bind] in H; try discriminate.
+    assert (E1 : inflight st1 = inflight st).
+    { unfold insert in EI. destruct (assert (sizes_agree st)); cbn [bind] in EI; try discriminate.
+      destruct (deref st a) as [o| |]; cbn [bind] in EI; try discriminate.
+      destruct (kinsert _ (timers st)); try discriminate. destruct (kinsert _ (active st)); try discriminate.
+      inversion EI; subst. reflexivity. }
+    destruct ee.
+    + destruct (deref st1 a) as [o| |]; cbn [bind] in H; try discriminate. unfold reset_timerfd in H. inversion H; subst.
+      unfold settime. destruct (_ =? 0); [|destruct (_ <? 0)]; cbn; auto.
+    + inversion H; subst; auto.
+  - destruct (cancel_in_loop st a s) as [st1| |] eqn:EC; cbn [bind] in H; try discriminate. inversion H; subst.
+    destruct (cancel_shape _ _ _ _ EC) as (_ & _ & Ep & _). split; auto.
+    unfold cancel_in_loop in EC. destruct (assert (sizes_agree st)); cbn [bind] in EC; try discriminate.
+    destruct (kmem (a, s) (active st)).
+    + destruct (deref st a) as [o| |]; cbn [bind] in EC; try discriminate.
+      destruct (kerase _ (timers st)); try discriminate. destruct (kerase _ (active st)); try discriminate.
+      inversion EC; subst. reflexivity.
+    + destruct (calling st); inversion EC; subst; reflexivity.
+Qed.
+(* an enqueue step only rewrites the queue / the in-flight set, as a function of those two alone *)
+Lemma enqueue_step_shape : forall st c st' e, enqueue_step c -> cb_step st c = Ok (st', e) ->
+  e = [] /\ st' = enq st (pending st') (inflight st') /\
+  forall st2, pending st2 = pending st -> inflight st2 = inflight st ->
+              cb_step st2 c = Ok (enq st2 (pending st') (inflight st'), []).
+Proof.
+  intros st c st' e ES H. destruct c as [d|w iv a|a s|w iv a|a s|w iv a|a|cs]; try contradiction; cbn [cb_step] in *.
+  - inversion H; subst. splits; auto. intros st2 Ep Ei. cbn [pending inflight set_pending set_inflight].
+    rewrite Ep. rewrite <- Ei. reflexivity.
+  - destruct (zmem a (inflight st)) eqn:ZM; inversion H; subst. splits; auto.
+    intros st2 Ep Ei. rewrite Ei, ZM. cbn [pending inflight set_pending set_inflight]. rewrite Ep. reflexivity.
+  - inversion H; subst. splits; auto. intros st2 Ep Ei. cbn [pending inflight set_pending set_inflight].
+    rewrite Ep. rewrite <- Ei. reflexivity.
+Qed.
+
+(* Commutation.  A hand-off / a queued cancel / a queued user functor that lands WHILE a timer functor of the
+   current batch runs has exactly the effect of the same step right after that functor: same state, same
+   events.  (By mrun_weave the model places such steps between functors; this is why that loses nothing.) *)
+Lemma enqueue_commutes : forall st f c st1 e1 stc ec, timer_functor f -> enqueue_step c ->
+  run_one st f = Ok (st1, e1) -> cb_step st c = Ok (stc, ec) ->
+  exists st2, cb_step st1 c = Ok (st2, []) /\ run_one stc f = Ok (st2, e1) /\ ec = [].
+Proof.
+  intros st f c st1 e1 stc ec TF ES H1 Hc.
+  destruct (enqueue_step_shape _ _ _ _ ES Hc) as (Ee & Es & Any). destruct (run_one_keeps_queue _ _ _ _ TF H1) as [Ep Ei].
+  exists (enq st1 (pending stc) (inflight stc)). split; [apply Any; auto|]. split; auto.
+  rewrite Es. rewrite (run_one_enq st _ _ f TF). rewrite H1. reflexivity.
+Qed.
